@@ -464,6 +464,14 @@ class Engine:
                     if A.equal(L, W if fam != "if" else W):
                         hits.append((fam, "t", "=" + nm, ("rowabs", W)))
         if not hits:
+            # a whole row of the layout at a non-boundary position (row 1, row ny-1 of the j-faces): kept symbolic, the
+            # rules compare it (same treatment as a column at a non-boundary position)
+            for fam, base, W in self.widths(arr.role):
+                last = ny if fam == "jf" else ny - 1
+                for jr in (A.const(1), A.const(2), last - 1, last - 2):
+                    if A.equal(A.sub(s, base), jr * W) and e is not None and A.equal(A.sub(e, s), W):
+                        hits.append((fam, "t", "=" + A.show(jr).replace("|", "/"), ("rowabs", W)))
+        if not hits:
             # a contiguous slice that starts a grid-size-dependent number of entries into the array, which is not a
             # whole number of rows of this array for some grids: it pairs entries of different columns (a flat
             # shift by ny in an array whose rows have width nx is a neighbour relation only when nx == ny)
